@@ -57,7 +57,9 @@ Inductive op :=
 | OSpSort (slot : bool)
 | OSpSortAbs (slot : bool)
 | OSpQuery (slot : bool) (n : str)              (* Get, GetAll, Has, String, and the whole list *)
-| OSpTouch (slot : bool).                       (* u.SearchParams() *)
+| OSpTouch (slot : bool)                        (* u.SearchParams() *)
+| OSpAdopt (slot : bool).                       (* slot.SetSearchParams(other.SearchParams()): the URL's own list
+                                                   becomes a copy of the other URL's list, its query follows *)
 
 Section Hist.
   Variable idna_raw : str -> str * bool.
@@ -138,6 +140,14 @@ Section Hist.
         match get s slot with
         | None => (s, [])
         | Some u => (put s slot (Some (fst (ensure_sp c u))), [])
+        end
+    | OSpAdopt slot =>
+        match get s slot, get s (negb slot) with
+        | Some u, Some v =>
+            let '(v', l) := ensure_sp c v in            (* the argument: other.SearchParams() *)
+            let s1 := put s (negb slot) (Some v') in
+            (put s1 slot (Some (sp_update c (fst (ensure_sp c u)) l)), [])
+        | _, _ => (s, [])
         end
     end.
 
